@@ -56,7 +56,7 @@ func (f *ftrans) call(x *ast.CallExpr) *val {
 		}
 		f.needMonadic(x, "make")
 		n := f.expr(x.Args[1])
-		return &val{t: tBytes, term: f.bind("zmake " + atom(f.toZ(n, x.Args[1])))}
+		return &val{t: tBytes, term: f.bind("zmake " + atom(f.toZ(n, x.Args[1]))), buf: true}
 	case "binary.BigEndian.Uint16", "binary.LittleEndian.Uint16":
 		v := f.expr(x.Args[0])
 		if v.t.k != kBytes {
@@ -78,6 +78,38 @@ func (f *ftrans) call(x *ast.CallExpr) *val {
 		}
 		f.needMonadic(x, "Uint16 of a slice of unknown length")
 		return &val{t: tU16, term: f.bind(fmt.Sprintf("z%s %s", fn, atom(arg)))}
+	case "binary.BigEndian.Uint32", "binary.LittleEndian.Uint32", "binary.BigEndian.Uint64", "binary.LittleEndian.Uint64":
+		v := f.expr(x.Args[0])
+		if v.t.k != kBytes || v.isSlice {
+			f.p.bad(x, "%s of a %s", qn, v.t)
+		}
+		fn, rt := "zbe32", tU32
+		switch qn {
+		case "binary.LittleEndian.Uint32":
+			fn = "zle32"
+		case "binary.BigEndian.Uint64":
+			fn, rt = "zbe64", tU64
+		case "binary.LittleEndian.Uint64":
+			fn, rt = "zle64", tU64
+		}
+		f.needMonadic(x, qn)
+		return &val{t: rt, term: f.bind(fmt.Sprintf("%s %s", fn, atom(v.term)))}
+	case "math.Float32frombits", "math.Float64frombits":
+		// carried as the bit pattern
+		v := f.expr(x.Args[0])
+		want, rt := tU32, tF32
+		if qn == "math.Float64frombits" {
+			want, rt = tU64, tFloat
+		}
+		if !sameType(v.t, want) {
+			f.p.bad(x, "%s of a %s", qn, v.t)
+		}
+		return &val{t: rt, term: v.term}
+	case "new":
+		if len(x.Args) == 1 && qualName(x.Args[0]) == "strings.Builder" {
+			return &val{t: tBuilder, term: "[]"}
+		}
+		f.p.bad(x, "new of something else than strings.Builder")
 	case "errors.New", "fmt.Errorf":
 		for _, a := range x.Args[1:] {
 			f.pureArg(a)
@@ -88,6 +120,14 @@ func (f *ftrans) call(x *ast.CallExpr) *val {
 			f.pureArg(a)
 		}
 		return &val{t: tString, str: true}
+	}
+	// ---- builder.String()
+	if sel, ok := x.Fun.(*ast.SelectorExpr); ok && sel.Sel.Name == "String" && len(x.Args) == 0 {
+		if id, ok := sel.X.(*ast.Ident); ok {
+			if bv, ok := f.env.lookup(id.Name); ok && bv.t.k == kBuilder {
+				return &val{t: tString, term: bv.term}
+			}
+		}
 	}
 	// ---- functions and methods of the package
 	if id, ok := x.Fun.(*ast.Ident); ok {
@@ -176,29 +216,33 @@ func (f *ftrans) conversion(x *ast.CallExpr, t *typ) *val {
 		return f.conv(v, t, x)
 	}
 	A := atom(v.term)
-	switch t.k {
-	case kInt:
-		switch v.t.k {
-		case kInt:
-			return v
-		case kU8, kU16:
+	switch {
+	case t.k == kInt:
+		switch {
+		case v.t.k == kInt || v.t.isSint():
+			return &val{t: tInt, term: v.term}
+		case v.t.isUint():
 			return &val{t: tInt, term: "(Z.of_N " + A + ")"}
 		}
-	case kU16:
-		switch v.t.k {
-		case kU8, kU16:
-			return &val{t: tU16, term: v.term, cv: v.cv} // widening
-		case kInt:
-			return &val{t: tU16, term: "(u16_of_Z " + A + ")"}
+	case t.isUint():
+		switch {
+		case v.t.isUint() && v.t.bits() <= t.bits():
+			return &val{t: t, term: v.term, cv: v.cv} // widening
+		case v.t.isUint():
+			return &val{t: t, term: fmt.Sprintf("(u%d %s)", t.bits(), A)} // truncation
+		case v.t.k == kInt || v.t.isSint():
+			return &val{t: t, term: fmt.Sprintf("(u%d_of_Z %s)", t.bits(), A)}
 		}
-	case kU8:
-		switch v.t.k {
-		case kU8:
-			return v
-		case kU16:
-			return &val{t: tU8, term: "(u8 " + A + ")"} // truncation
-		case kInt:
-			return &val{t: tU8, term: "(u8_of_Z " + A + ")"}
+	case t.isSint():
+		switch {
+		case v.t.isUint() && v.t.bits() < t.bits():
+			return &val{t: t, term: "(Z.of_N " + A + ")"} // fits
+		case v.t.isUint():
+			return &val{t: t, term: fmt.Sprintf("(sint %d (Z.of_N %s))", t.bits(), A)}
+		case v.t.isSint() && v.t.bits() <= t.bits():
+			return &val{t: t, term: v.term}
+		case v.t.k == kInt || v.t.isSint():
+			return &val{t: t, term: fmt.Sprintf("(sint %d %s)", t.bits(), A)}
 		}
 	}
 	f.p.bad(x, "conversion from %s to %s", v.t, t)
@@ -245,6 +289,9 @@ func (f *ftrans) callFunc(x *ast.CallExpr, fd *funcDecl, recv *val) *val {
 	sig := f.tr.translate(fd, "full")
 	if sig.untranslated != "" {
 		f.p.bad(x, "calls %s, which is untranslated", fd.name)
+	}
+	if sig.shape == "mut" {
+		return f.callMut(x, fd, sig, recv)
 	}
 	args := f.callArgs(x, sig, recv)
 	app := sig.coqName
@@ -296,19 +343,46 @@ func (f *ftrans) callArgs(x *ast.CallExpr, sig *fsig, recv *val) []string {
 	return args
 }
 
-// flatLeaves lists the terms of the flattened fields of a symbolic struct value.
+// flatLeaves lists the terms of the leaves of a symbolic struct value, in the order in which
+// recvValue declares the parameters of a method of that struct.
 func (f *ftrans) flatLeaves(v *val, at ast.Node) []string {
 	name := v.t.name
 	if v.t.k == kPtr {
 		name = v.t.elem.name
 	}
 	var out []string
-	for _, fl := range f.p.flatFields(name) {
-		fv := f.fieldOf(v, fl.name)
-		if fv == nil || fv.term == "" {
+	for _, fl := range f.p.structs[name].fields {
+		fv, ok := v.fields[fl.name]
+		if !ok {
+			fv = f.zero(fl.typ)
+		}
+		switch {
+		case fl.typ.k == kStruct:
+			if fv.fields == nil {
+				f.p.bad(at, "receiver part %s is held as a model term", fl.name)
+			}
+			out = append(out, f.flatLeaves(fv, at)...)
+			continue
+		case fl.typ.k == kString:
+			continue
+		}
+		if fv.term == "" {
 			f.p.bad(at, "receiver field %s has no term", fl.name)
 		}
+		if fl.typ.k == kBytes && f.p.sliceFields[name+"."+fl.name] != fv.isSlice {
+			f.p.bad(at, "receiver field %s: slice representation mismatch", fl.name)
+		}
 		out = append(out, atom(fv.term))
+		if f.p.nilCompared[name+"."+fl.name] {
+			switch {
+			case fv.nilTerm != "":
+				out = append(out, fv.nilTerm)
+			case fv.isNil:
+				out = append(out, "true")
+			default:
+				f.p.bad(at, "whether field %s is nil is not known here", fl.name)
+			}
+		}
 	}
 	return out
 }
